@@ -155,7 +155,7 @@ func (fe *FnExec) oblige(fr *frame, label string, props []string, pc, goal Term,
 	}
 	if pos.IsValid() {
 		p := fe.eng.fset.Position(pos)
-		o.Where = fmt.Sprintf("%s:%d", strings.TrimPrefix(p.Filename, "/repo/"), p.Line)
+		o.Where = fmt.Sprintf("%s:%d", strings.TrimPrefix(p.Filename, repoRoot+"/"), p.Line)
 	}
 	fe.script.Obs = append(fe.script.Obs, o)
 }
